@@ -7,5 +7,6 @@ CONSTANTS
   Scale = 1
   MaxAdmin = 2
   MaxQuery = 2
+  Fault = "none"
   MaxLen = 3
 INVARIANTS TypeOK LogExactlyOnce StatsTotals DeniedLeavesNoTrace EffectOfSettings ViewSound
